@@ -45,21 +45,47 @@ func (st *State) doCall(in *ssa.Call, b *ssa.BasicBlock, idx int) bool {
 	name := calleeName(c)
 	vc.runGhost(st, "before call", name, ord)
 	// inline candidate?
-	if !c.IsInvoke() {
+	var devTargs []types.Type
+	var devirt *ssa.Function
+	if c.IsInvoke() {
+		if tv, ok := fnv.(TV); ok {
+			if di, ok := st.dyn[tv.T.S]; ok {
+				if m, targs := vc.lookupMethod(di.typ, c.Method.Name()); m != nil {
+					devirt, devTargs = m, targs
+					args = append([]Val{di.val}, args...)
+				}
+			}
+		}
+	}
+	if !c.IsInvoke() || devirt != nil {
 		var target *ssa.Function
 		var inst *ssa.Function
 		var binds []Val
+		if devirt != nil {
+			target, inst = devirt, devirt
+		}
+		switch f := c.Value.(type) {
+		case *ssa.Function, *ssa.MakeClosure:
+			if devirt != nil {
+				break
+			}
+			_ = f
+		}
 		switch f := c.Value.(type) {
 		case *ssa.Function:
-			target, inst = f, f
+			if devirt == nil {
+				target, inst = f, f
+			}
 		case *ssa.MakeClosure:
-			target = f.Fn.(*ssa.Function)
-			inst = target
-			for _, bv := range f.Bindings {
-				binds = append(binds, st.value(bv))
+			if devirt == nil {
+				target = f.Fn.(*ssa.Function)
+				inst = target
+				for _, bv := range f.Bindings {
+					binds = append(binds, st.value(bv))
+				}
 			}
 		default:
-			if fv, ok := fnv.(FuncV); ok {
+			if fv, ok := fnv.(FuncV); ok && devirt == nil {
 				target, inst, binds = fv.Fn, fv.Fn, fv.Bind
 			}
 		}
@@ -70,7 +96,14 @@ func (st *State) doCall(in *ssa.Call, b *ssa.BasicBlock, idx int) bool {
 			}
 			key := funcKey(origin)
 			fc := vc.cs.Funcs[key]
-			hasContract := fc != nil && !fc.Inline
+			hasContract := fc != nil && !fc.Inline && !vc.forceInline(key)
+			if devirt != nil && hasContract {
+				// devirtualised interface call, by the concrete method's contract
+				res := st.applyContractT(fc, origin, devTargs, args, nil, fmt.Sprintf("%s#%d", key, ord))
+				st.bind(in, res)
+				vc.runGhost(st, "after call", name, ord, res)
+				return false
+			}
 			if !hasContract && !isPrimitive(target) && origin.Blocks != nil && (vc.inModule(origin) || inlineStd[pkgPathOf(origin)]) {
 				if st.fr.depth >= maxInlineDepth {
 					fail("inline depth exceeded at call to %s (give it a contract)", key)
@@ -82,8 +115,11 @@ func (st *State) doCall(in *ssa.Call, b *ssa.BasicBlock, idx int) bool {
 				vc.computeLoops(origin)
 				vc.computeOrdinals(origin)
 				// type parameters of the generic callee -> actual types
-				if origin != inst {
+				if origin != inst || devTargs != nil {
 					tas := inst.TypeArgs()
+					if devTargs != nil {
+						tas = devTargs
+					}
 					var tps []*types.TypeParam
 					collect := func(l *types.TypeParamList) {
 						if l == nil {
@@ -127,7 +163,7 @@ func (st *State) doCall(in *ssa.Call, b *ssa.BasicBlock, idx int) bool {
 }
 
 // inlineStd: standard-library packages whose real bodies are executed symbolically inside their callers.
-var inlineStd = map[string]bool{"slices": true}
+var inlineStd = map[string]bool{"slices": true, "container/heap": true}
 
 func pkgPathOf(f *ssa.Function) string {
 	if f.Pkg != nil {
@@ -137,6 +173,46 @@ func pkgPathOf(f *ssa.Function) string {
 		return f.Object().Pkg().Path()
 	}
 	return ""
+}
+
+// forceInline: the contract under verification asks for these callees to be executed from their bodies ("inlines a, b").
+func (vc *VC) forceInline(key string) bool {
+	if vc.fc == nil {
+		return false
+	}
+	for _, c := range vc.fc.clauses("inlines") {
+		for _, k := range strings.Split(c.Text, ",") {
+			if strings.TrimSpace(k) == key {
+				return true
+			}
+		}
+	}
+	return false
+}
+
+// lookupMethod: the generic origin of method name on the dynamic (pointer-to-named) type, with the type arguments of that type.
+func (vc *VC) lookupMethod(t types.Type, name string) (*ssa.Function, []types.Type) {
+	t = resolveTP(t)
+	if p, ok := t.Underlying().(*types.Pointer); ok {
+		t = types.Unalias(p.Elem())
+	}
+	n, ok := t.(*types.Named)
+	if !ok {
+		return nil, nil
+	}
+	var targs []types.Type
+	if ta := n.TypeArgs(); ta != nil {
+		for i := 0; i < ta.Len(); i++ {
+			targs = append(targs, ta.At(i))
+		}
+	}
+	o := n.Origin()
+	for i := 0; i < o.NumMethods(); i++ {
+		if o.Method(i).Name() == name {
+			return vc.w.Prog.FuncValue(o.Method(i)), targs
+		}
+	}
+	return nil, nil
 }
 
 func hasLoop(f *ssa.Function) bool {
@@ -274,6 +350,13 @@ func (st *State) resultsAllocated(res Val, rt *types.Tuple) {
 }
 
 // applyContract: assert requires, havoc modifies, assume ensures.
+// applyContractT: like applyContract, with explicit type arguments for the callee's (receiver) type parameters.
+func (st *State) applyContractT(fc *FuncContract, origin *ssa.Function, targs []types.Type, args []Val, binds []Val, siteLabel string) Val {
+	st.vc.explicitTargs = targs
+	defer func() { st.vc.explicitTargs = nil }()
+	return st.applyContract(fc, origin, origin, args, binds, siteLabel)
+}
+
 func (st *State) applyContract(fc *FuncContract, origin, inst *ssa.Function, args []Val, binds []Val, siteLabel string) Val {
 	vc := st.vc
 	vc.usedContracts[fc.Key] = true
@@ -290,8 +373,11 @@ func (st *State) applyContract(fc *FuncContract, origin, inst *ssa.Function, arg
 	}
 	// type parameter environment: callee's type params -> actual types
 	tenv := map[string]types.Type{}
-	if inst != nil && origin != inst {
+	if (inst != nil && origin != inst) || vc.explicitTargs != nil {
 		tas := inst.TypeArgs()
+		if vc.explicitTargs != nil {
+			tas = vc.explicitTargs
+		}
 		var tps []*types.TypeParam
 		collect := func(l *types.TypeParamList) {
 			if l == nil {
